@@ -116,14 +116,69 @@ package originium
 //
 // DB.search / DB.rawset: the interface of the engine to the transaction layer. Proved against
 // their bodies under C01 (memtables, tables); used here through the contract only.
+// C01 (read path). The store invariant dbInv ties the abstract store View to what the active
+// memtable, the immutable memtables (container/list, oldest at the front) and the tables hold:
+//   dbStruct   every store is well formed (skiplist invariant SL, table model lmOK)
+//   dbIn       every entry of every store is in View, with that very entry
+//   dbOut      every entry of View is in some store (ghost witnesses: VGen = 0 tables / p+1 the p-th
+//              immutable / n+1 the active memtable; VNode the skiplist node; VTabL/P/Q the table slot)
+//   dbOrder    for one user key, a newer store holds no smaller version than an older store
+// DB.search is proved against it: the first hit in the order active, immutables newest first,
+// tables is the entry of the key with the largest version <= ts in View. That rawset (rotation),
+// flush, compaction and recovery re-establish dbInv is NOT proved (rawset stays a trusted contract).
+//@ ghost VGen (Array Str Int)
+//@ ghost VNode (Array Str Int)
+//@ ghost VTabL (Array Str Int)
+//@ ghost VTabP (Array Str Int)
+//@ ghost VTabQ (Array Str Int)
+//@ define mtOK(m) = m != nil && m.skiplist != nil && SL(m.skiplist)
+//@ define inMem(m, x) = SLMem[ref(m.skiplist)][ref(x)] && x != m.skiplist.head
+//@ define nImm(db) = ListLen[ref(db.immutables)]
+//@ define immAt(db, p) = unbox(*originium.memtable, cast(P_list_Element, ListAt[ref(db.immutables)][p]).Value)
+//@ define dbStruct(db) = db.memtable != nil && mtOK(db.memtable) && db.immutables != nil && listOK(db.immutables) && db.manager != nil && lmOK(db.manager) && forall(Int(p), (0 <= p && p < nImm(db)) ==> (tag(cast(P_list_Element, ListAt[ref(db.immutables)][p]).Value) == tagof(*originium.memtable) && mtOK(immAt(db, p))), trig(ListAt[ref(db.immutables)][p]))
+//@ define dbInAct(db) = forall(P_skiplist_Element(x), inMem(db.memtable, x) ==> (ViewHas[x.Entry.Key] && ViewEnt[x.Entry.Key] == x.Entry), trig(SLMem[ref(db.memtable.skiplist)][ref(x)]))
+//@ define dbInImm(db) = forall(Int(p), P_skiplist_Element(x), (0 <= p && p < nImm(db) && inMem(immAt(db, p), x)) ==> (ViewHas[x.Entry.Key] && ViewEnt[x.Entry.Key] == x.Entry), trig(SLMem[ref(immAt(db, p).skiplist)][ref(x)]))
+//@ define dbInTab(db) = forall(Int(L), Int(p), Int(q), (0 <= L && L < len(db.manager.levels) && 0 <= p && p < ListLen[ref(db.manager.levels[L])] && 0 <= q && q < TLen[fAt(db.manager, L, p)]) ==> (ViewHas[TEnt[fAt(db.manager, L, p)][q].Key] && ViewEnt[TEnt[fAt(db.manager, L, p)][q].Key] == TEnt[fAt(db.manager, L, p)][q]), trig(TEnt[fAt(db.manager, L, p)][q]))
+//@ define vNodeIn(m, w) = inMem(m, cast(P_skiplist_Element, VNode[w])) && cast(P_skiplist_Element, VNode[w]).Entry.Key == w
+//@ define vTabIn(lm, w) = 0 <= VTabL[w] && VTabL[w] < len(lm.levels) && 0 <= VTabP[w] && VTabP[w] < ListLen[ref(lm.levels[VTabL[w]])] && 0 <= VTabQ[w] && VTabQ[w] < TLen[fAt(lm, VTabL[w], VTabP[w])] && TEnt[fAt(lm, VTabL[w], VTabP[w])][VTabQ[w]].Key == w
+//@ define dbOut(db) = forall(Str(w), ViewHas[w] ==> (wf(w) && canon(w) && 0 <= VGen[w] && VGen[w] <= nImm(db) + 1 && (VGen[w] == nImm(db) + 1 ==> vNodeIn(db.memtable, w)) && ((1 <= VGen[w] && VGen[w] <= nImm(db)) ==> vNodeIn(immAt(db, VGen[w] - 1), w)) && (VGen[w] == 0 ==> vTabIn(db.manager, w))), trig(ViewHas[w]))
+//@ define dbOrdAI(db) = forall(Int(p), P_skiplist_Element(x), P_skiplist_Element(y), (0 <= p && p < nImm(db) && inMem(immAt(db, p), x) && inMem(db.memtable, y) && uk(x.Entry.Key) == uk(y.Entry.Key)) ==> ts(x.Entry.Key) <= ts(y.Entry.Key), trig(SLMem[ref(immAt(db, p).skiplist)][ref(x)], SLMem[ref(db.memtable.skiplist)][ref(y)]))
+//@ define dbOrdII(db) = forall(Int(p), Int(p2), P_skiplist_Element(x), P_skiplist_Element(y), (0 <= p && p < p2 && p2 < nImm(db) && inMem(immAt(db, p), x) && inMem(immAt(db, p2), y) && uk(x.Entry.Key) == uk(y.Entry.Key)) ==> ts(x.Entry.Key) <= ts(y.Entry.Key), trig(SLMem[ref(immAt(db, p).skiplist)][ref(x)], SLMem[ref(immAt(db, p2).skiplist)][ref(y)]))
+//@ define dbOrdTA(db) = forall(Int(L), Int(p), Int(q), P_skiplist_Element(y), (0 <= L && L < len(db.manager.levels) && 0 <= p && p < ListLen[ref(db.manager.levels[L])] && 0 <= q && q < TLen[fAt(db.manager, L, p)] && inMem(db.memtable, y) && uk(TEnt[fAt(db.manager, L, p)][q].Key) == uk(y.Entry.Key)) ==> ts(TEnt[fAt(db.manager, L, p)][q].Key) <= ts(y.Entry.Key), trig(TEnt[fAt(db.manager, L, p)][q], SLMem[ref(db.memtable.skiplist)][ref(y)]))
+//@ define dbOrdTI(db) = forall(Int(L), Int(p), Int(q), Int(p2), P_skiplist_Element(y), (0 <= L && L < len(db.manager.levels) && 0 <= p && p < ListLen[ref(db.manager.levels[L])] && 0 <= q && q < TLen[fAt(db.manager, L, p)] && 0 <= p2 && p2 < nImm(db) && inMem(immAt(db, p2), y) && uk(TEnt[fAt(db.manager, L, p)][q].Key) == uk(y.Entry.Key)) ==> ts(TEnt[fAt(db.manager, L, p)][q].Key) <= ts(y.Entry.Key), trig(TEnt[fAt(db.manager, L, p)][q], SLMem[ref(immAt(db, p2).skiplist)][ref(y)]))
+//@ define dbInv(db) = dbStruct(db) && dbInAct(db) && dbInImm(db) && dbInTab(db) && dbOut(db) && dbOrdAI(db) && dbOrdII(db) && dbOrdTA(db) && dbOrdTI(db)
+//
+// memtable.lowerBound: the skiplist's LowerBound under the memtable's read lock
+//@ func (*originium.memtable).lowerBound -> e, ok
+//@ props C01 C05
+//@ requires mtOK(mt) && wf(key)
+//@ assigns SLW
+//@ ensures ok ==> (SLMem[ref(mt.skiplist)][SLW] && SLW != ref(mt.skiplist.head) && cmp(cast(P_skiplist_Element, SLW).Entry.Key, key) >= 0 && e == cast(P_skiplist_Element, SLW).Entry)
+//@ ensures ok ==> forall(P_skiplist_Element(y), (inMem(mt, y) && cmp(y.Entry.Key, key) >= 0) ==> cmp(e.Key, y.Entry.Key) <= 0, trig(SLMem[ref(mt.skiplist)][ref(y)]))
+//@ ensures !ok ==> forall(P_skiplist_Element(y), inMem(mt, y) ==> cmp(y.Entry.Key, key) < 0, trig(SLMem[ref(mt.skiplist)][ref(y)]))
+//
+//@ define missMem(m, key) = forall(P_skiplist_Element(y), inMem(m, y) ==> !matches(y.Entry, key), trig(SLMem[ref(m.skiplist)][ref(y)]))
+//@ define hitMem(m, e, key) = matches(e, key) && wf(e.Key) && forall(P_skiplist_Element(y), (inMem(m, y) && matches(y.Entry, key)) ==> ts(y.Entry.Key) <= ts(e.Key), trig(SLMem[ref(m.skiplist)][ref(y)]))
+//@ define ipos(e) = ite(e == nil, 0 - 1, ElIdx[ref(e)])
 //@ func (*originium.DB).search -> v, ok
 //@ props C01 C05
-//@ trusted engine layer below the transaction interface: memtables, immutables and tables (C01/C10/C17 obligations; see DESIGN)
-//@ requires wf(key)
+//@ requires wf(key) && dbInv(db)
 //@ assigns everything_except originium.Txn originium.oracle originium.DB.oracle originium.DB.logger ]types.Entry map[uint64]struct A|uint64 A|originium.committedTxn X|Hist X|HistLen X|Wm X|View X|StoreReads G|
 //@ ensures ok ==> ex(i, 0, 1, true) && forall(Str(vk), vis(uk(key), ts(key), vk) ==> (!ViewEnt[vk].Tombstone && v == ViewEnt[vk].Value), trig(ViewHas[vk]))
 //@ ensures ok ==> exists(Str(vk), vis(uk(key), ts(key), vk), trig(ViewHas[vk]))
 //@ ensures !ok ==> forall(Str(vk), vis(uk(key), ts(key), vk) ==> ViewEnt[vk].Tombstone, trig(ViewHas[vk]))
+//@ after_call (*originium.memtable).lowerBound#0: assert (result1 && uk(result0.Key) == uk(key)) ==> hitMem(db.memtable, result0, key)
+//@ after_call (*originium.memtable).lowerBound#0: assert !(result1 && uk(result0.Key) == uk(key)) ==> missMem(db.memtable, key)
+//@ after_call (*originium.memtable).lowerBound#1: assert (result1 && uk(result0.Key) == uk(key)) ==> hitMem(imt, result0, key)
+//@ after_call (*originium.memtable).lowerBound#1: assert !(result1 && uk(result0.Key) == uk(key)) ==> missMem(imt, key)
+//@ define topIn(E, key) = ViewHas[E.Key] && ViewEnt[E.Key] == E && wf(E.Key) && matches(E, key) && forall(Str(w), (ViewHas[w] && uk(w) == uk(key) && ts(w) <= ts(key)) ==> ts(w) <= ts(E.Key), trig(ViewHas[w]))
+//@ before_call types.Value#0: assert topIn(mtEntry, key)
+//@ before_call types.Value#1: assert topIn(imtEntry, key)
+//@ before_call types.Value#2: assert topIn(sstEntry, key)
+//@ after_call types.IsSameKey#2: assert !(ok__1 && result) ==> forall(Str(w), (ViewHas[w] && uk(w) == uk(key)) ==> ts(w) > ts(key), trig(ViewHas[w]))
+//@ loop 0:
+//@   invariant (e == nil || inList(e, db.immutables)) && missMem(db.memtable, key)
+//@   invariant forall(Int(p), (ipos(e) < p && p < nImm(db)) ==> missMem(immAt(db, p), key), trig(ListAt[ref(db.immutables)][p]))
 //
 //@ func (*originium.DB).rawset
 //@ props C01 C06 C08
@@ -185,8 +240,8 @@ package originium
 // read-write transaction, one read fingerprint and one entry in the ghost set of store reads.
 //@ define getFrame() = true
 //@ func (*originium.Txn).Get -> v, ok
-//@ props C05 C07 C08
-//@ requires txnWf(t) && writesInv(t)
+//@ props C05 C07 C08 C01
+//@ requires txnWf(t) && writesInv(t) && dbInv(t.db)
 //@ assigns everything_except originium.Txn.readOnly originium.Txn.discarded originium.Txn.doneRead originium.Txn.db originium.Txn.readTs originium.Txn.writesFp originium.Txn.pendingWrites originium.oracle originium.DB.oracle originium.DB.logger ]types.Entry map[uint64]struct A|originium.committedTxn X|Hist X|HistLen X|Wm X|View G|
 //@ ensures (t.discarded || key == "") ==> (!ok && t.readsFp == old(t.readsFp) && StoreReads == old(StoreReads))
 //@ ensures (!t.discarded && key != "" && !t.readOnly && has(t.pendingWrites, key)) ==> (ok == !t.pendingWrites[key].Tombstone && (ok ==> v == t.pendingWrites[key].Value) && t.readsFp == old(t.readsFp) && StoreReads == old(StoreReads))
